@@ -4,10 +4,11 @@
    writer), written as a line-by-line state machine.
 
    What the parser does, as far as it matters for files produced here:
-   * the header (magic line, one comment line, ASCII, DATASET POLYDATA) is
-     matched by ONE regular expression against the first 256 bytes of the
-     file only (maxHeaderLength = 256); the comment is dot-star, which does not
-     cross a line terminator;
+   * the header is the magic line, one comment line, ASCII, DATASET POLYDATA;
+     the comment is dot-star, which does not cross a line terminator.
+     (Neuroglancer's parser looks for the header inside a fixed-size window
+     at the start of the file; the length of that window is NOT modelled
+     here: the grammar accepts a comment line of any length.)
    * then lines are read one at a time: blank lines are skipped;
      `POINTS n type` is followed by n lines of (at least) 3 numbers;
      `POLYGONS m k` requires k = 4 m and is followed by m lines `3 a b c`
@@ -51,10 +52,9 @@ Record vattr := {
 Definition py_space (c : N) : bool :=
   ((9 <=? c) && (c <=? 13)) || ((28 <=? c) && (c <=? 32)).
 
-(* re.match("\\s", name) is None  -- anchored at the start: only the FIRST
-   character is looked at *)
+(* assert name and re.search("\\s", name) is None *)
 Definition name_assert_passes (name : list N) : bool :=
-  match name with c :: _ => negb (py_space c) | [] => true end.
+  match name with [] => false | _ => negb (existsb py_space name) end.
 
 Definition suffix_text (version : list N) : list N :=
   (* "Written by neuroglancer-scripts-" ++ version ++ "." *)
@@ -136,13 +136,6 @@ Definition toks (l : vline) : list gtok :=
   | LInts zs => map GI zs
   end.
 
-(* length in bytes of a header line (without its newline) *)
-Definition header_line_len (l : vline) : option N :=
-  match l with
-  | LMagic => Some 26 | LTitle s => Some (lenN s) | LAscii => Some 5 | LDataset => Some 16
-  | _ => None
-  end.
-
 Definition bytes_eqb (a b : list N) : bool :=
   (length a =? length b)%nat && forallb (fun '(x, y) => x =? y) (combine a b).
 Definition is_word (w : list N) (t : gtok) : bool :=
@@ -154,27 +147,20 @@ Definition as_count (t : gtok) : option N :=
 Definition as_number (t : gtok) : option N :=
   match t with GF b => Some b | _ => None end.
 
-Definition max_header_length : N := 256.
-
 (* `.` of a JavaScript regular expression does not match \n or \r *)
 Definition comment_ok (l : vline) : bool :=
   match l with LTitle s => negb (existsb (fun c => (c =? 10) || (c =? 13)) s) | _ => false end.
 
 Definition header_ok (l0 l1 l2 l3 : vline) : bool :=
-  match header_line_len l0, header_line_len l1, header_line_len l2, header_line_len l3 with
-  | Some a, Some b, Some c, Some d =>
-      (a + 1 + (b + 1) + (c + 1) + (d + 1) <=? max_header_length) &&
-      match toks l0 with
-      | [t0; t1; t2; t3; _] =>
-          match w_magic with
-          | [m0; m1; m2; m3] => is_word m0 t0 && is_word m1 t1 && is_word m2 t2 && is_word m3 t3
-          | _ => false end
-      | _ => false end &&
-      comment_ok l1 &&
-      match toks l2 with [t] => is_word w_ascii t | _ => false end &&
-      match toks l3 with [t; u] => is_word w_dataset t && is_word w_polydata u | _ => false end
-  | _, _, _, _ => false
-  end.
+  match toks l0 with
+  | [t0; t1; t2; t3; _] =>
+      match w_magic with
+      | [m0; m1; m2; m3] => is_word m0 t0 && is_word m1 t1 && is_word m2 t2 && is_word m3 t3
+      | _ => false end
+  | _ => false end &&
+  comment_ok l1 &&
+  match toks l2 with [t] => is_word w_ascii t | _ => false end &&
+  match toks l3 with [t; u] => is_word w_dataset t && is_word w_polydata u | _ => false end.
 
 Record pattr := { pa_name : list N; pa_k : N; pa_rows : list (list N) }.
 
@@ -317,7 +303,10 @@ Definition vtk_grammar (ls : list vline) : option vtk_mesh :=
   | _ => None
   end.
 
-(* ---------- guard: the region on which the export is accepted ---------- *)
+(* ---------- guard: well-formedness of the input of the export ----------
+   (no line break in the title line, triangle indices that are indices,
+   attribute tables of the announced shape with at least one component and
+   names that pass the writer's own assertion) *)
 
 Definition name_ok (name : list N) : bool :=
   match name with [] => false | _ => negb (existsb py_space name) end.
@@ -330,7 +319,6 @@ Definition attr_ok (nv : N) (a : vattr) : bool :=
 Definition vtk_guard (title version : list N) (vs : list (N * N * N)) (ts : list (Z * Z * Z))
            (attrs : list vattr) : bool :=
   negb (existsb (fun c => (c =? 10) || (c =? 13)) (title ++ version)) &&
-  (lenN (title_line title version) <=? 205) &&
   forallb (fun '(a, b, c) => (0 <=? a)%Z && (0 <=? b)%Z && (0 <=? c)%Z) ts &&
   forallb (attr_ok (lenN vs)) attrs.
 
